@@ -204,6 +204,41 @@ func C14(tier string) int {
 		}
 	}
 
+	// ---- (1b) predicated resolution where the DELEGATE has no callback for the value's own type ----
+	for _, v := range keys {
+		other := "ActivityStreams/Note"
+		if v == other {
+			other = "ActivityStreams/Person"
+		}
+		for _, dl := range [][]string{{}, {other}} {
+			log := &cbLog{}
+			var cbs []interface{}
+			for i, k := range dl {
+				cbs = append(cbs, mkCallback(log, i, bind.Type(k), nil))
+			}
+			dlg, err := streams.NewTypeResolver(cbs...)
+			if err != nil {
+				continue
+			}
+			pr, err := streams.NewTypePredicatedResolver(dlg, mkPredicate(log, bind.Type(v), true, nil))
+			if err != nil {
+				continue
+			}
+			pass, rerr := pr.Apply(ctx, bind.Type(v).New())
+			res.Case(fmt.Sprintf("pred-delegate-without-callback|%s|%d", v, len(dl)))
+			var got []string
+			for _, cl := range log.calls {
+				got = append(got, cl.kind)
+			}
+			// the predicate (for the own type) runs and passes; the delegate then has nothing for the value:
+			// no callback is invoked and the error is an unmatched one
+			if strings.Join(got, ",") != "pred" || !streams.IsUnmatchedErr(rerr) {
+				res.Violate("predicated-own-type|delegate-without-callback", fmt.Sprintf("value %s, own-type predicate passing, delegate callbacks %v: calls=%v pass=%v err=%v; expected only the predicate to run and an unmatched error", v, dl, got, pass, rerr),
+					M{"check": "C14", "resolver": "TypePredicatedResolver", "value_type": v, "delegate_callbacks": dl})
+			}
+		}
+	}
+
 	// ---- (2) callback lists of length 0..3 (thorough: 4) over a per-type alphabet ----
 	maxLen := 3
 	if res.Thorough() {
@@ -465,7 +500,7 @@ func C14(tier string) int {
 	}
 
 	res.Extra["types"] = len(keys)
-	res.Rule = fmt.Sprintf("(1) all %d x %d (value type, callback type) pairs for JSONResolver, TypeResolver and TypePredicatedResolver (predicate outcomes (true,nil),(false,nil),(false,err),(true,err)); (2) for every value type all callback lists of length 0..%d over {own, own returning an error, a parent, a child, a sibling, a similarly named foreign type, a foreign type}; (3) all 'type' arrays of length 1..3 over {Note, Person, Emoji, an unknown name, an unknown prefixed name} x 6 callback sets, with ToType as cross-check; (3a) 12 'type' members that name no type (empty array, arrays of non-strings, number, null, object, boolean, empty string, wrong case): nothing invoked, unmatched error; (3b) every type written under 7 @context spellings (own vocabulary URI, the same with the other of http / https, in a list, aliased {URI: alias} alone / in a list / after another alias map / with a type array) through JSONResolver and ToType; (4) 13 wrong constructor shapes x 3 constructors; callbacks are manufactured with reflect.MakeFunc from the ontology-derived binding table; oracle: exactly the first own-type callback is invoked and its error returned by identity, else nothing is invoked and IsUnmatchedErr holds", len(keys), len(keys), maxLen)
+	res.Rule = fmt.Sprintf("(1) all %d x %d (value type, callback type) pairs for JSONResolver, TypeResolver and TypePredicatedResolver (predicate outcomes (true,nil),(false,nil),(false,err),(true,err); and a passing own-type predicate in front of a delegate that has no callback for the type); (2) for every value type all callback lists of length 0..%d over {own, own returning an error, a parent, a child, a sibling, a similarly named foreign type, a foreign type}; (3) all 'type' arrays of length 1..3 over {Note, Person, Emoji, an unknown name, an unknown prefixed name} x 6 callback sets, with ToType as cross-check; (3a) 12 'type' members that name no type (empty array, arrays of non-strings, number, null, object, boolean, empty string, wrong case): nothing invoked, unmatched error; (3b) every type written under 7 @context spellings (own vocabulary URI, the same with the other of http / https, in a list, aliased {URI: alias} alone / in a list / after another alias map / with a type array) through JSONResolver and ToType; (4) 13 wrong constructor shapes x 3 constructors; callbacks are manufactured with reflect.MakeFunc from the ontology-derived binding table; oracle: exactly the first own-type callback is invoked and its error returned by identity, else nothing is invoked and IsUnmatchedErr holds", len(keys), len(keys), maxLen)
 	res.Assumptions = []string{"for a multi-valued 'type' the value's own type is the first entry that names a known type (ToType is required to agree)"}
 	return res.Finish()
 }
